@@ -214,6 +214,19 @@ func registerIntrinsics() {
 		}
 		return r, nDone
 	})
+	// vxLibRead/vxLibWrite(buf): the transport stub reads / fills the library's buffer; for the race detector these
+	// are accesses made by the library frame that called the stub
+	libAccess := func(write bool) nativeFn {
+		return func(in *Interp, cc *callCtx, args []Value) (Value, nativeStatus) {
+			s := args[0].(Slice)
+			if in.raceOn && s.obj != nil && s.len.IsConst() && s.len.k > 0 {
+				in.raceAccessAs(s.obj, s.off, int(s.len.k), write)
+			}
+			return nil, nDone
+		}
+	}
+	reg("vxLibRead", libAccess(false))
+	reg("vxLibWrite", libAccess(true))
 	reg("vxJitter", func(in *Interp, cc *callCtx, args []Value) (Value, nativeStatus) { return nil, nDone })
 	reg("vxLock", func(in *Interp, cc *callCtx, args []Value) (Value, nativeStatus) { return nil, nDone })
 	reg("vxUnlock", func(in *Interp, cc *callCtx, args []Value) (Value, nativeStatus) { return nil, nDone })
